@@ -293,9 +293,11 @@ def check(run, replay=None):
         progs += [gen_program(rng) for _ in range(1500 if tier == "quick" else 30000)]
     lines = [p[0] for p in progs]
     nontriv = set()
-    for tag in ("plain", "checked"):
+    for tag in ("plain", "checked", "plain-const", "checked-const"):
+        base = tag.split("-")[0]
+        exes[tag] = exes[base] + (" const" if tag.endswith("const") else "")
         rc, io, se = run_lines(exes[tag], lines)
-        rcm, mo, _ = run_lines(model + (" checked" if tag == "checked" else ""), lines)
+        rcm, mo, _ = run_lines(model + (" checked" if base == "checked" else ""), lines)
         if rc != 0:
             # the harness handles one program per line: the first line without output is the crashing one
             nout = len([x for x in io if x.strip()])
@@ -344,7 +346,7 @@ def check(run, replay=None):
                    "`end`-relative/__ arguments, operator[], T, permute, diag_vector(k), submatrix_on_diagonal, reshape, soft_link; every admissible "
                    "single slice of rank<=2, extents<=3 exhaustively; output = rank, extents, parent element at every index, and the whole parent after "
                    "writing through every element; compared with (a) the nested-list denotation computed in Python and (b) the extracted Coq model; both the "
-                   "default and the ADEPT_BOUNDS_CHECKING build (plus programs with one out-of-range index).  Non-trivial = more than one element and at least two operations.")
+                   "default and the ADEPT_BOUNDS_CHECKING build (plus programs with one out-of-range index), each once through the non-const and once through the const overloads (operator(), operator[], T, soft_link, subset applied through a const reference).  Non-trivial = more than one element and at least two operations.")
     cov["traces_validated_against_impl"] = cov["evaluations"]
     run.assumptions += ["ranks 5-7 are covered by the theorems (any rank) but not by the harness (ranks 1-4)",
                         "parent arrays small enough that no row padding is applied (packed strides)"]
